@@ -74,3 +74,16 @@ impl<const N: usize> Default for Lowpass<N> {
 pub type Lowpass1 = Lowpass<1>;
 /// Second order lowpass
 pub type Lowpass2 = Lowpass<2>;
+
+
+#[cfg(idsp_verif)]
+impl<const N: usize> Lowpass<N> {
+    /// Verification hook: construct from raw state.
+    pub fn verif_from_raw(s: [i64; N]) -> Self {
+        Self(s)
+    }
+    /// Verification hook: raw state.
+    pub fn verif_raw(&self) -> [i64; N] {
+        self.0
+    }
+}
